@@ -6,6 +6,7 @@ from hypothesis import strategies as st
 from .. import cli
 from .. import drawer as D
 from ..core import Property, Violation
+from ..run import guard
 from .c13 import render as render_hex
 
 PROP = Property(
@@ -70,7 +71,7 @@ def check_dump(data, note):
         d.parse_ilog_data = lambda dat, h: (seen.append(('I', bytes(dat))), orig_i(dat, h))[1]
         d.parse_trace_data = lambda dat, s: (seen.append(('T', bytes(dat))), orig_t(dat, s))[1]
     try:
-        got = d.parse_dump_data(memoryview(data), hdr, strf)
+        got = guard('C17.decode', d.parse_dump_data, memoryview(data), hdr, strf)
     finally:
         if orig_i and orig_t:
             d.parse_ilog_data, d.parse_trace_data = orig_i, orig_t
@@ -185,8 +186,8 @@ def dump_files(case, note):
     hdr, strf = D.shipped('mex_pte.h'), D.shipped('mexStringFile')
     text = ''.join(l + '\n' for l in render_hex(fi, data, lower, last_line, base))
     with D.TempFile(text, '.dump') as path:
-        got = d.parse_dump_file(path, hdr, strf)
-        want = d.parse_dump_data(memoryview(data), hdr, strf) if data else []
+        got = guard('C17.file', d.parse_dump_file, path, hdr, strf)
+        want = guard('C17.decode', d.parse_dump_data, memoryview(data), hdr, strf) if data else []
         note.extra_eval += 1
         if got != want:
             raise Violation('C17.file', 'decoding the dump file (format %d) differs from decoding its bytes: '
